@@ -419,13 +419,17 @@ func runCheck(ck *Check, tier string, seed int64, replay string, keepEvidence bo
 				verdict = 1
 			}
 		}
-	} else if werr != nil && nviol == 0 {
+	} else if werr != nil {
 		// result.json was written (monitor finished) but go test still failed: a race report
-		// after Finish, a leaked-goroutine panic, or a failure in another package of the run.
+		// (the race detector only fails the test at its end when halt_on_error did not stop
+		// it first), a leaked-goroutine panic, or a failure in another package of the run.
+		// A race between two golang/net stacks is reported whatever else the monitor found.
 		if strings.Contains(logs, "WARNING: DATA RACE") {
 			key, harnessOnly := crashKey(logs)
 			if harnessOnly {
 				inconc = append(inconc, "race inside harness code: "+key)
+			} else if known, desc := isKnown(ck.ID, key); known {
+				lines = append(lines, fmt.Sprintf("KNOWN-FINDING: property=%s %s (%s; race report)", ck.ID, key, desc))
 			} else {
 				rp := crashReplay(ck.ID, outDir, seed, tier, key, logs)
 				lines = append(lines, fmt.Sprintf("VIOLATION property=%s replay=%s", ck.ID, rp))
@@ -433,7 +437,7 @@ func runCheck(ck *Check, tier string, seed int64, replay string, keepEvidence bo
 				nviol++
 				verdict = 1
 			}
-		} else if strings.Contains(logs, "--- FAIL") || strings.Contains(logs, "FAIL\t") {
+		} else if nviol == 0 && (strings.Contains(logs, "--- FAIL") || strings.Contains(logs, "FAIL\t")) {
 			inconc = append(inconc, "go test failed although the monitor reported no violation (see "+logPath+")")
 		}
 	}
@@ -538,7 +542,7 @@ func firstLine(s string) string {
 	return s
 }
 
-var frameRe = regexp.MustCompile(`(?m)^\s*(golang\.org/x/net/[^\s(]+)\(`)
+var frameRe = regexp.MustCompile(`(?m)^\s*(golang\.org/x/net/\S+)\(`)
 
 // crashKey derives a signature from a dead child's log and says whether only harness
 // frames were involved.
